@@ -1240,6 +1240,7 @@ func firstLine(s string) string {
 func newPair(t *SimTransport, maxMultipartMemory int64) (*api.Client, error) {
 	srv, err := api.NewServer(handler{}, secHandler{},
 		api.WithMiddleware(recordingMiddleware, secondMiddleware),
+		api.WithErrorHandler(SimErrorHandler),
 		api.WithMaxMultipartMemory(maxMultipartMemory),
 	)
 	if err != nil {
